@@ -368,9 +368,40 @@ def run_property_steps(ctx, f, text, lf, auto_claim, prop_sigs) -> bool:
     return True
 
 
+def comment_indent_probe(ctx: common.Ctx):
+    """An indent assignment on a block comment whose lines all read '; text' or a bare ';' (LF and CRLF, with empty
+    comment lines) changes the indentation only: what follows the indentation of every line stays as it was."""
+    from autobean_refactor import models
+    raws = ['; a\n; b', '  ; a\n  ;\n  ; b', '\t; a\r\n\t;\r\n\t; b', '    ; x\r\n    ;\r\n    ;\r\n    ; y z', '; only', '  ;\n  ; after blank',
+            '; a\r\n;\r\n; b\r\n;\r\n; c']
+    for raw in raws:
+        for ind_ in ('', '  ', '\t', '      '):
+            try:
+                t = models.BlockComment.from_raw_text(raw)
+            except Exception:
+                continue
+            ctx.count('comment_indent_probes')
+            before = [ln.lstrip(' \t') for ln in t.raw_text.split('\n')]
+            t.indent = ind_
+            lines = t.raw_text.split('\n')
+            after = [ln.lstrip(' \t') for ln in lines]
+            if after != before or any(not ln.startswith(ind_ + ';') for ln in lines):
+                ctx.monitor_failure('C02:doc-comment-reindented', f'indent = {ind_!r} on the comment {raw!r} gives {t.raw_text!r}: characters behind '
+                                    f'the indentation changed (or a line is not indented as assigned)', {'raw': raw, 'indent': ind_})
+                return
+            v = t.value
+            t.value = v
+            if [ln.lstrip(' \t') for ln in t.raw_text.split('\n')] != before:
+                ctx.monitor_failure('C02:doc-state-vs-text', f'value = <its own value> on the comment {raw!r} (indent {ind_!r}) rewrites it to '
+                                    f'{t.raw_text!r}', {'raw': raw, 'indent': ind_})
+                return
+
+
 def run_documents(ctx: common.Ctx, prop_sigs, n_quick: int = 25, n_thorough: int = 250):
     from harness import gen_docs
     setter_tie(ctx)
+    if 'C02' in prop_sigs:
+        comment_indent_probe(ctx)
     sd.set_load_factor(ctx.rng.choice([4, 10, 1000]))
     for _ in range(ctx.scale(n_quick, n_thorough)):
         lf = ctx.rng.choice([3, 8, 1000])
